@@ -12,14 +12,16 @@ ASSUMES = ["A1", "A2", "A4", "A5", "A6"]
 MANIFEST = dict(
     text=("Mixed. PROVED over all real coordinates: Segment.length / Point.distance (r >= 0, r^2 = |B - A|^2); get_triangle_area equals |AB x AC| / 2 for every triangle and never hits a domain error (Heron's radicand is "
           "identically |AB x AC|^2 / 4 >= 0); Pyramid.height = |(apex - p0).n|, Pyramid.volume = h A / 3 within 1e-9 relative (the code's 1/3 is a double), and volume(pyramid) agrees with pyramid.volume() (height through distance(Point, Plane) by its contract); "
-          "volume() of other types raises. BOUNDED (labelled, not counted as proved): ConvexPolygon.length/area and ConvexPolyhedron.length/area/volume on catalogue polygons (3-8 vertices) and polyhedra (tetrahedra, boxes, prisms, pyramids, octahedra, hulls) "
+          "volume() of other types raises; ConvexPolygon.length = sum of the edge lengths of the cyclic vertex list and ConvexPolygon.area = n.(sum p_i x p_(i+1))/2 for n = 3..6 (thorough: ..8) under the polygon invariant "
+          "(proof script: fan edges in the plane, fan normals parallel to n by BAC-CAB, |w| = w.n by Lagrange, the centre is left of every edge as the mean of the all-pairs edge tests, so every fan triangle is positively oriented and the fan sum is the shoelace sum). "
+          "BOUNDED (labelled, not counted as proved): ConvexPolygon.length/area for other orderings / larger n and ConvexPolyhedron.length/area/volume on catalogue polygons (3-8 vertices) and polyhedra (tetrahedra, boxes, prisms, pyramids, octahedra, hulls) "
           "in oblique poses under vertex permutations, face permutations, face rotations and face orientations, against exact rational cross-product / determinant formulas, relative tolerance 1e-9; volume(x) == x.volume()."),
-    note=("The polygon fan-area and polyhedron pyramid-sum arguments are not proved in this revision (they need the polygon invariant in an in-plane frame; see DESIGN section 3.4); they rest on the bounded stand-in. A1, A5."),
+    note=("The polygon proofs assume the invariant the constructor establishes (C09: proved for n <= 4, bounded above); the polyhedron pyramid-sum is bounded only. Shape bound n <= 6 (8). A1, A5."),
     technique="contract-based deductive verification of the triangle / pyramid / segment measures (z3 with ghost scalars) + labelled bounded stand-in with exact rational reference for polygon and polyhedron sums",
     design_ref="DESIGN.md section 9 (C06)",
 )
 EXPLANATION = "proved: segment length, triangle area (Heron = cross product), pyramid height/volume, volume() dispatch; bounded: polygon and polyhedron sums under all orderings"
-BOUNDED_ONLY = ["Geometry3D.geometry.polygon:ConvexPolygon.length", "Geometry3D.geometry.polygon:ConvexPolygon.area", "Geometry3D.geometry.polyhedron:ConvexPolyhedron.length",
+BOUNDED_ONLY = ["Geometry3D.geometry.polyhedron:ConvexPolyhedron.length",
                 "Geometry3D.geometry.polyhedron:ConvexPolyhedron.area", "Geometry3D.geometry.polyhedron:ConvexPolyhedron.volume"]
 
 
@@ -129,3 +131,123 @@ def bounded(tier, seed):
 def replay_case(case):
     from g3dvc import bounded as B
     return B.replay_measures(case)
+
+
+# ---------------------------------------------------------------------------
+# ConvexPolygon.length and .area per shape (n vertices), under the polygon invariant (coplanar, unit normal, strictly convex,
+# counter-clockwise about the normal for all edge / vertex pairs, centre = vertex mean)
+# ---------------------------------------------------------------------------
+
+def x_triangle_area(pa, pb, pc):
+    """contract of get_triangle_area (proved above): r >= 0 and 4 r^2 = |(pb - pa) x (pc - pa)|^2"""
+    from g3dvc import sym as S
+    vc = S.engine()
+    vc.hit("get_triangle_area")
+    w = SP.cross(SP.sub(SP.vec(pb), SP.vec(pa)), SP.sub(SP.vec(pc), SP.vec(pa)))
+    r = vc.fresh("tri")
+    vc.assume(r >= 0, "get_triangle_area contract: r >= 0")
+    vc.assume(4 * r * r == SP.norm2(w), "get_triangle_area contract: 4 r^2 = |AB x AC|^2")
+    vc.record("triangle", (r, w))
+    return r
+
+
+def polygon_measure_harness(n):
+    def h(vc):
+        g = C.G()
+        pg = C.polygon(vc, "K", n, convex=True)
+        nv, pp = SP.vec(pg.plane.n), SP.vec(pg.plane.p)
+        pts = [SP.vec(p) for p in pg.points]
+        c = SP.vec(pg.center_point)
+        # perimeter
+        out = vc.call(pg.length)
+        vc.ensure("length() does not raise", out.returned)
+        if out.returned:
+            if vc.symbolic:
+                exp = sum(vc.sqrt(Sym(SP.norm2(SP.sub(pts[i], pts[(i + 1) % n]))), False) for i in range(n))
+                vc.ensure("length() = sum of the n edge lengths of the cyclic vertex list", SP.eq(out.value, exp))
+            else:
+                exp = sum(float(SP.norm2(SP.sub(pts[i], pts[(i + 1) % n]))) ** 0.5 for i in range(n))
+                vc.ensure("length() = sum of the n edge lengths of the cyclic vertex list", abs(out.value - exp) <= 1e-9 * max(1.0, exp))
+        else:
+            vc.note(repr(out.value))
+        # area
+        out = vc.call(pg.area)
+        vc.ensure("area() does not raise", out.returned)
+        if not out.returned:
+            vc.note(repr(out.value))
+            return
+        T = [SP.dot(nv, SP.cross(SP.sub(pts[i], c), SP.sub(pts[(i + 1) % n], c))) for i in range(n)]
+        shoelace = SP.dot(nv, tuple(sum(SP.cross(pts[i], pts[(i + 1) % n])[k] for i in range(n)) for k in range(3)))
+        if vc.symbolic:
+            tri = vc.log.get("triangle", [])
+            ok = len(tri) == n
+            vc.ensure("area() sums exactly n fan triangles", ok)
+            if not ok:
+                return
+            inpl = [SP.dot(SP.sub(p, pp), nv) for p in pts]
+            # identify each summed triangle with a fan triangle (centre, p_i, p_(i+1)) whatever the order of summation; a different
+            # triangulation is not an error: the script then does not apply and the final clause is left to the solver / random search
+            from g3dvc import smt as _smt
+            from g3dvc.sym import F as _F
+            refs = [SP.cross(SP.sub(pts[i], c), SP.sub(pts[(i + 1) % n], c)) for i in range(n)]
+            match = {}
+            for k_, (r_, w_) in enumerate(tri):
+                for i in range(n):
+                    if i in match.values():
+                        continue
+                    if _smt.prove(_F(SP.veq(w_, refs[i])), [], 1500, use_cone=False, portfolio=False)["status"] == "proved":
+                        match[k_] = i
+                        break
+            if len(match) != n:
+                vc.note("the summed triangles are not the fan (centre, p_i, p_(i+1)): proof script not applicable")
+            for k_, i in sorted(match.items()):
+                r, w = tri[k_]
+                a, b = SP.sub(pts[i], c), SP.sub(pts[(i + 1) % n], c)
+                an, bn = SP.dot(a, nv), SP.dot(b, nv)
+                # S1: the two fan edges are parallel to the plane (vertices and their mean lie in it)
+                for nm, vec_, dotv, idx in (("a", a, an, i), ("b", b, bn, (i + 1) % n)):
+                    ident = dotv == inpl[idx] - sum(inpl[j] for j in range(n)) / n
+                    vc.hint("(p - c).n expanded", ident)
+                    vc.have("fan edge %s%d parallel to the plane" % (nm, i), dotv == 0, using=[ident] + [x == 0 for x in inpl], abstract=[dotv] + inpl)
+                # S2: w x n = 0 (BAC-CAB)
+                wxn = SP.cross(w, nv)
+                for k in range(3):
+                    bac = wxn[k] == b[k] * an - a[k] * bn
+                    vc.hint("BAC-CAB", bac)
+                    vc.have("fan normal parallel to n, triangle %d component %d" % (i, k), wxn[k] == 0, using=[bac, an == 0, bn == 0], abstract=[wxn[k], an, bn])
+                # S3: |w|^2 = (w.n)^2 (Lagrange, |n| = 1)
+                wn = SP.dot(w, nv)
+                lag = SP.norm2(w) * SP.norm2(nv) - wn * wn == wxn[0] * wxn[0] + wxn[1] * wxn[1] + wxn[2] * wxn[2]
+                vc.hint("Lagrange", lag)
+                vc.have("|w|^2 = (w.n)^2, triangle %d" % i, SP.norm2(w) == wn * wn, using=[lag, SP.norm2(nv) == 1] + [x == 0 for x in wxn], abstract=[SP.norm2(w), SP.norm2(nv), wn] + list(wxn))
+                # S4: w.n = T_i = (1/n) sum_j e_ij >= 0 (the centre is a convex combination: it is left of every edge)
+                e = [SP.dot(nv, SP.cross(SP.sub(pts[(i + 1) % n], pts[i]), SP.sub(pts[j], pts[i]))) for j in range(n)]
+                cent = wn == sum(e) / n
+                vc.hint("fan term as the mean of the edge tests", cent)
+                vc.hint("edge test of the edge's own end points vanishes", And(e[i] == 0, e[(i + 1) % n] == 0))
+                prem = [cent, e[i] == 0, e[(i + 1) % n] == 0] + [e[j] > 0 for j in range(n) if j not in (i, (i + 1) % n)]
+                vc.have("fan triangle %d positively oriented" % i, wn > 0, using=prem, abstract=[wn] + e)
+                # S5: 2 r = w.n
+                vc.have("2 r_%d = w.n" % i, 2 * r == wn, using=[4 * r * r == SP.norm2(w), r >= 0, SP.norm2(w) == wn * wn, wn > 0], abstract=[SP.norm2(w), wn])
+            total = sum(SP.dot(tri[i][1], nv) for i in range(n))
+            vc.hint("sum of the fan terms = shoelace sum", total == shoelace)
+            vc.ghost(*([SP.dot(tri[i][1], nv) for i in range(n)] + [shoelace]))
+            vc.ensure("area() = n.(sum p_i x p_(i+1)) / 2 (the area of the polygon)", SP.eq(2 * out.value, shoelace))
+            vc.ensure("area() > 0", SP.gtz(out.value))
+        else:
+            vc.ensure("area() = n.(sum p_i x p_(i+1)) / 2 (the area of the polygon)", abs(2 * out.value - float(shoelace)) <= 1e-9 * max(1.0, abs(float(shoelace))))
+
+    return h
+
+
+_groups_core = groups
+
+
+def groups(tier):
+    from props.C01 import coord_stubs
+    cs = coord_stubs() + [(C.T_LENGTH, C.x_length), ("Geometry3D.geometry.polygon:get_triangle_area", x_triangle_area)]
+    gs = _groups_core(tier)
+    for n in ((3, 4, 5, 6) if tier == "quick" else (3, 4, 5, 6, 7, 8)):
+        gs.append(Group("ConvexPolygon.length / area[n=%d]" % n, polygon_measure_harness(n), ["Geometry3D.geometry.polygon:ConvexPolygon.length", "Geometry3D.geometry.polygon:ConvexPolygon.area",
+                        "Geometry3D.geometry.polygon:ConvexPolygon.segments"], stubs=cs, world="COORD", timeout_s=1200, prove_ms=30000, expect_hits=["get_triangle_area"]))
+    return gs
